@@ -38,7 +38,9 @@ double gen_f64(vf::Src& s) {
 	if (!std::isfinite(x)) x = 0.25; return x;
 }
 Val gen_leaf(vf::Src& s, const GenCtx& g) {
-	switch (s.draw(8)) { case 0: return refmp::mkBool(s.coin()); case 1: return refmp::mkInt(s.integer<int64_t>()); case 2: return refmp::mkUInt(s.integer<uint64_t>()); case 3: return refmp::mkF64(gen_f64(s)); default: return refmp::mkStr(refutf::enc8(gen_text(s, g, 10))); }
+	switch (s.draw(9)) { case 0: return refmp::mkBool(s.coin()); case 1: return refmp::mkInt(s.integer<int64_t>()); case 2: return refmp::mkUInt(s.integer<uint64_t>()); case 3: return refmp::mkF64(gen_f64(s));
+	case 4: { float f; switch (s.draw(3)) { case 0: { uint32_t b = static_cast<uint32_t>(s.draw(0)); memcpy(&f, &b, 4); break; } case 1: f = std::nextafter(static_cast<float>(s.draw(100000)) / 8, 1e30f); break; default: f = static_cast<float>(static_cast<long long>(s.draw(2000001)) - 1000000) / 1000; } if (!std::isfinite(f)) f = 0.25f; return refmp::mkF32(f); }
+	default: return refmp::mkStr(refutf::enc8(gen_text(s, g, 10))); }
 }
 Val gen_tree(vf::Src& s, const GenCtx& g, int depth, size_t& keyIdx, bool mustContainer) {
 	if (!mustContainer && (depth <= 0 || s.chance(2, 5))) return gen_leaf(s, g);
@@ -131,6 +133,7 @@ void emit(vf::Src& s, const El& e, std::string& o, int style, bool permute, bool
 	if (s.chance(1, 6)) o += " "; o += ">";
 	if (e.leaf) {
 		std::string text = e.kind == RT::F64 ? spell_double(s, e.d) : e.text;
+		if (e.kind == RT::F32) { char b[64]; snprintf(b, sizeof b, s.coin() ? "%.9g" : "%.8e", static_cast<double>(e.f)); text = b; }
 		if (e.kind == RT::Str && text.find("]]>") == std::string::npos && s.chance(1, 5)) o += "<![CDATA[" + text + "]]>"; else o += esc(s, text, false, 0, style);
 	}
 	else { std::vector<size_t> idx(e.kids.size()); for (size_t k = 0; k < idx.size(); k++) idx[k] = k; if (permute && !e.isArray) for (size_t k = idx.size(); k > 1; --k) std::swap(idx[k - 1], idx[s.draw(k)]); for (size_t k : idx) { emit_ws(s, o, ws); emit(s, e.kids[k], o, style, permute, ws); } emit_ws(s, o, ws); }
@@ -144,6 +147,7 @@ std::string emit_doc(vf::Src& s, const El& root, int style, bool permute, bool w
 }
 bool same_loaded(const Val& got, const Val& want) {
 	if (want.t == RT::F64 && got.t == RT::F64) return memcmp(&got.d, &want.d, 8) == 0 || (got.d == 0 && want.d == 0);
+	if (want.t == RT::F32 && got.t == RT::F32) return memcmp(&got.f, &want.f, 4) == 0 || (got.f == 0 && want.f == 0);
 	if (want.t == RT::Arr) { if (got.t != RT::Arr || got.arr.size() != want.arr.size()) return false; for (size_t i = 0; i < want.arr.size(); i++) if (!same_loaded(got.arr[i], want.arr[i])) return false; return true; }
 	if (want.t == RT::Map) { if (got.t != RT::Map || got.map.size() != want.map.size()) return false; for (size_t i = 0; i < want.map.size(); i++) { if (got.map[i].first.s != want.map[i].first.s || got.map[i].second.fmt == 0xc1 || !same_loaded(got.map[i].second, want.map[i].second)) return false; } return true; }
 	return refmp::same(got, want);
